@@ -163,6 +163,32 @@ def gen_case(rng, tier, uhf):
         spec_py = [[int(x) for x in la], [int(x) for x in lb]]
         spec_cq = "(FPair [%s] [%s])" % ("; ".join("(FI (%d)%%Z)" % x for x in la), "; ".join("(FI (%d)%%Z)" % x for x in lb))
         kind = "pair-cross-spin"
+    oa = [i for i in range(n) if occa[i] > 0]
+    ob = [i for i in range(n) if occb[i] > 0]
+    if len(oa) >= 2 and len(ob) >= 1 and rng.random() < 0.35:
+        # DIFFERENT non-empty frozen occupied sets for alpha and beta (the frozen-frozen alpha-beta Coulomb term of the
+        # core constant is then not symmetric under exchanging the two sets), optionally with frozen virtuals
+        fb = sorted(rng.sample(ob, rng.randint(1, len(ob))))
+        ka = rng.randint(1, len(oa) - (1 if len(fb) == len(ob) else 0))
+        fa = sorted(rng.sample(oa, ka))
+        if fa == fb:
+            alt = [x for x in oa if x not in fa]
+            fa = sorted(fa[:-1] + [alt[0]]) if alt else fa
+        if fa != fb:
+            la = fa + [i for i in range(n) if occa[i] == 0 and rng.random() < 0.25]
+            lb = fb + [i for i in range(n) if occb[i] == 0 and rng.random() < 0.25]
+            if rng.random() < 0.3:
+                rng.shuffle(la)
+            spec_py = [[int(x) for x in la], [int(x) for x in lb]]
+            spec_cq = "(FPair [%s] [%s])" % ("; ".join("(FI (%d)%%Z)" % x for x in la), "; ".join("(FI (%d)%%Z)" % x for x in lb))
+            kind = "pair-diff-frozen-occ"
+            if not sym:       # the energy oracle needs integrals with the symmetries of real orbitals
+                sym = True
+                ha, hb = CC.rand_h(rng, n, True), CC.rand_h(rng, n, True)
+                eaa, ebb = CC.rand_eri(rng, n, True), CC.rand_eri(rng, n, True)
+                eab = CC.rand_eri(rng, n, False)
+                eab = eab + eab.transpose(1, 0, 2, 3)
+                eab = eab + eab.transpose(0, 1, 3, 2)
     return {"uhf": True, "n": n, "occa": occa, "occb": occb, "spin": na_el - nb_el, "core": core,
             "ha": ha, "hb": hb, "eaa": eaa, "eab": eab, "ebb": ebb, "sym": sym,
             "spec_py": spec_py, "spec_cq": spec_cq, "kind": kind, "elements": elements}
@@ -470,6 +496,15 @@ def pyscf_cases(ck):
         {"name": "H3-ROHF-doublet", "xyz": [("H", (0., 0., 0.)), ("H", (0., 0., 0.9)), ("H", (0.3, 0., 1.9))], "q": 0, "spin": 1, "uhf": False, "frozen": None},
         {"name": "H4-RHF-frozen[0,3]", "xyz": chain(4, 0.85), "q": 0, "spin": 0, "uhf": False, "frozen": [0, 3]},
         {"name": "H4+-UHF-frozen[[0],[]]", "xyz": chain(4, 0.9), "q": 1, "spin": 1, "uhf": True, "frozen": [[0], []]},
+        # high-spin restricted open shells with frozen orbitals (FCISolver then goes through its CAS path)
+        {"name": "H4-ROHF-triplet-frozen[3]", "xyz": chain(4, 0.9), "q": 0, "spin": 2, "uhf": False, "frozen": [3]},
+        {"name": "H4-ROHF-triplet-frozen[0]", "xyz": chain(4, 1.0), "q": 0, "spin": 2, "uhf": False, "frozen": [0]},
+        {"name": "H5-ROHF-quartet-frozen[0,4]", "xyz": chain(5, 0.95), "q": 0, "spin": 3, "uhf": False, "frozen": [0, 4]},
+        {"name": "H6-ROHF-quintet-frozen[0,5]", "xyz": chain(6, 1.0), "q": 0, "spin": 4, "uhf": False, "frozen": [0, 5]},
+        # genuinely open-shell UHF with DIFFERENT non-empty frozen occupied sets for alpha and beta
+        {"name": "H4-UHF-triplet-frozen[[1],[0]]", "xyz": chain(4, 0.9), "q": 0, "spin": 2, "uhf": True, "frozen": [[1], [0]]},
+        {"name": "H4-UHF-triplet-frozen[[0,1],[0]]", "xyz": chain(4, 0.9), "q": 0, "spin": 2, "uhf": True, "frozen": [[0, 1], [0]]},
+        {"name": "H3-UHF-doublet-frozen[[1],[0]]", "xyz": chain(3, 0.95), "q": 0, "spin": 1, "uhf": True, "frozen": [[1], [0]]},
     ]
     if ck.tier == "quick":
         return fixed
@@ -496,6 +531,25 @@ def pyscf_cases(ck):
             frozen = 1
         out.append({"name": "H%d(q=%d,spin=%d,%s)-rand%d" % (n, q, spin, "UHF" if uhf else "R(O)HF", k), "xyz": xyz, "q": q,
                     "spin": spin, "uhf": uhf, "frozen": frozen})
+    for k in range(6):
+        n = rng.choice([4, 4, 5])
+        d = rng.uniform(0.8, 1.4)
+        spin = 2 if n == 4 else rng.choice([1, 3])
+        nd = (n - spin) // 2                                  # doubly occupied orbitals 0..nd-1, singly nd..nd+spin-1
+        cand = list(range(nd)) + list(range(nd + spin, n))
+        fr = sorted(rng.sample(cand, rng.randint(1, max(1, len(cand) - 1)))) if cand else None
+        out.append({"name": "H%d-ROHF-spin%d-frozen%s-rand%d" % (n, spin, fr, k), "xyz": chain(n, d), "q": 0, "spin": spin, "uhf": False, "frozen": fr})
+    for k in range(6):
+        n = rng.choice([4, 4, 5])
+        d = rng.uniform(0.8, 1.3)
+        spin = 2 if n == 4 else rng.choice([1, 3])
+        na, nb = (n + spin) // 2, (n - spin) // 2
+        fb = sorted(rng.sample(range(nb), rng.randint(1, nb))) if nb else []
+        fa = sorted(rng.sample(range(na), rng.randint(1, na - 1)))
+        if fa == fb:
+            fa = sorted(set(range(na)) - set(fa))[:max(1, len(fa))] or fa
+        out.append({"name": "H%d-UHF-spin%d-frozen%s-rand%d" % (n, spin, [fa, fb], k), "xyz": chain(n, d), "q": 0, "spin": spin, "uhf": True, "frozen": [fa, fb]})
+    out.append({"name": "H5-UHF-doublet-frozen[[0,2],[1,4]]", "xyz": chain(5, 0.95), "q": 0, "spin": 1, "uhf": True, "frozen": [[0, 2], [1, 4]]})
     out.append({"name": "LiH-RHF-frozen_core", "xyz": [("Li", (0., 0., 0.)), ("H", (0., 0., rng.uniform(1.4, 1.8)))], "q": 0, "spin": 0,
                 "uhf": False, "frozen": "frozen_core"})
     out.append({"name": "LiH-RHF-frozen[0,3,4]", "xyz": [("Li", (0., 0., 0.)), ("H", (0., 0., 1.6))], "q": 0, "spin": 0,
@@ -513,32 +567,77 @@ def reference_expectation(mol, mapping, up_then_down):
     return get_backend("cirq").get_expectation_value(qu, circ)
 
 
-def sector_ground_energy(mol):
-    """lowest eigenvalue of the fermionic Hamiltonian (JW matrix from openfermion) in the sector with the
-    molecule's alpha/beta electron numbers."""
+def _jw_matrix(fh, nq):
     import openfermion as of
-    fh = mol.fermionic_hamiltonian
-    nq = mol.n_active_sos
     op = of.FermionOperator()
     for k, v in fh.terms.items():
         op += of.FermionOperator(k, v)
-    mat = of.get_sparse_operator(op, n_qubits=nq).toarray()
-    na, nb = mol.n_active_ab_electrons
+    return of.get_sparse_operator(op, n_qubits=nq).toarray()
+
+
+def _lowest_in(mat, nq, pred):
     keep = []
     for idx in range(2 ** nq):
         bits = [(idx >> (nq - 1 - q)) & 1 for q in range(nq)]     # openfermion: qubit 0 is the most significant bit
-        if sum(bits[0::2]) == na and sum(bits[1::2]) == nb:
+        if pred(bits):
             keep.append(idx)
+    if not keep:
+        raise ValueError("empty sector")
     sub = mat[np.ix_(keep, keep)]
     return float(np.linalg.eigvalsh((sub + sub.conj().T) / 2)[0])
+
+
+def target_sector(mol):
+    """(n_alpha, n_beta) of the ACTIVE space and of the full space, recounted from the occupations / charge / spin,
+    not taken from the molecule's own bookkeeping properties."""
+    if mol.uhf:
+        occ = np.asarray(mol.mo_occ)
+        full = (int(round(occ[0].sum())), int(round(occ[1].sum())))
+        act = (full[0] - len(mol.frozen_occupied[0]), full[1] - len(mol.frozen_occupied[1]))
+    else:
+        n = int(mol.n_electrons)
+        full = ((n + mol.spin) // 2, (n - mol.spin) // 2)
+        nf = len(mol.frozen_occupied)
+        act = (full[0] - nf, full[1] - nf)
+    return act, full
+
+
+def sector_ground_energy(mol):
+    """lowest eigenvalue of the ACTIVE-space fermionic Hamiltonian (JW matrix from openfermion) in the target
+    (n_alpha, n_beta) sector."""
+    nq = mol.n_active_sos
+    (na, nb), _ = target_sector(mol)
+    mat = _jw_matrix(mol.fermionic_hamiltonian, nq)
+    return _lowest_in(mat, nq, lambda bits: sum(bits[0::2]) == na and sum(bits[1::2]) == nb)
+
+
+def projected_full_space_energy(mol):
+    """Independent 'full CI with the same frozen orbitals': the FULL-space Hamiltonian (nothing folded) restricted to the
+    basis states in which every frozen occupied spin-orbital is filled, every frozen virtual one empty, with the full
+    (n_alpha, n_beta).  Uses only the unfolded integrals; equals the active-space sector ground energy iff the folding
+    (core constant and one-body terms) is right."""
+    full = mol.freeze_mos(None, inplace=False)
+    nq = full.n_active_sos
+    _, (na, nb) = target_sector(mol)
+    if mol.uhf:
+        on = [2 * i for i in mol.frozen_occupied[0]] + [2 * i + 1 for i in mol.frozen_occupied[1]]
+        off = [2 * i for i in mol.frozen_virtual[0]] + [2 * i + 1 for i in mol.frozen_virtual[1]]
+    else:
+        on = [q for i in mol.frozen_occupied for q in (2 * i, 2 * i + 1)]
+        off = [q for i in mol.frozen_virtual for q in (2 * i, 2 * i + 1)]
+    mat = _jw_matrix(full.fermionic_hamiltonian, nq)
+    return _lowest_in(mat, nq, lambda bits: sum(bits[0::2]) == na and sum(bits[1::2]) == nb
+                      and all(bits[q] for q in on) and not any(bits[q] for q in off))
 
 
 def run_pyscf_support(ck):
     from tangelo.toolboxes.molecular_computation.molecule import SecondQuantizedMolecule
     tol = 1e-7
     ck.stream("pyscf-support", "SUPPORT (numerical, not proof): real PySCF molecules sto-3g; mean-field energy vs expectation of "
-              "the encoded Hamiltonian in the encoded reference state (tolerance 1e-7); thorough: lowest sector "
-              "eigenvalue vs FCISolver, invariance under active-space rotations; non-trivial = has frozen orbitals or open shell")
+              "the encoded Hamiltonian in the encoded reference state (tolerance 1e-7); lowest eigenvalue in the (n_alpha, n_beta) sector vs "
+              "FCISolver.simulate()/get_rdm() (RHF, ROHF doublet..quintet, with and without frozen orbitals) and vs the unfolded Hamiltonian "
+              "restricted to the frozen pattern (also UHF with different frozen lists per spin); thorough: more molecules, active-space "
+              "rotations; non-trivial = has frozen orbitals or open shell")
     mappings = [("JW", False), ("JW", True)] if ck.tier == "quick" else \
                [("JW", False), ("JW", True), ("BK", False), ("BK", True), ("scBK", True), ("JKMN", False), ("JKMN", True)]
     for pc in pyscf_cases(ck):
@@ -567,37 +666,62 @@ def run_pyscf_support(ck):
                 ck.violation("C04/pyscf/reference-energy/%s/%s" % ("uhf" if pc["uhf"] else ("rohf" if pc["spin"] else "rhf"), mapping),
                              "%s: mean-field energy %.10f, <ref|H|ref> %.10f (%s, up_then_down=%s)" % (pc["name"], mol.mf_energy, e, mapping, utd),
                              {"kind": "pyscf", "case": json.loads(json.dumps(pc)), "mapping": mapping, "up_then_down": utd}, found_input=True)
-        if ck.tier == "thorough" and mol.n_active_sos <= 10:
+        if mol.n_active_sos > (8 if ck.tier == "quick" else 10):
+            continue
+        ref = "uhf" if pc["uhf"] else ("rohf-spin%d" % pc["spin"] if pc["spin"] else "rhf")
+        pcj = json.loads(json.dumps(pc))
+        try:
+            e0 = sector_ground_energy(mol)
+        except Exception as ex:
+            ck.notes.setdefault("pyscf_sector_errors", []).append("%s: %r" % (pc["name"], ex))
+            continue
+        (na, nb), _ = target_sector(mol)
+        if tuple(int(x) for x in mol.n_active_ab_electrons) != (na, nb):
+            ck.violation("C04/pyscf/electron-count/%s" % ref, "%s: n_active_ab_electrons %s, recount from occupations/charge/spin %s"
+                         % (pc["name"], mol.n_active_ab_electrons, (na, nb)), {"kind": "pyscf", "case": pcj, "what": "sector"}, found_input=True)
+        # (1) full CI with the same frozen orbitals, from the unfolded Hamiltonian restricted to the frozen pattern
+        if mol.n_sos <= (8 if ck.tier == "quick" else 10) and mol.frozen_mos is not None:
             try:
-                e0 = sector_ground_energy(mol)
+                ep = projected_full_space_energy(mol)
+                if abs(ep - e0) > 1e-7:
+                    ck.violation("C04/pyscf/frozen-pattern-energy/%s" % ref, "%s: lowest eigenvalue of the active-space Hamiltonian in sector (%d,%d) is %.9f, the "
+                                 "full-space Hamiltonian restricted to the frozen pattern gives %.9f" % (pc["name"], na, nb, e0, ep),
+                                 {"kind": "pyscf", "case": pcj, "what": "sector"}, found_input=True)
             except Exception as ex:
-                ck.notes.setdefault("pyscf_sector_errors", []).append("%s: %r" % (pc["name"], ex))
-                continue
-            if not pc["uhf"]:
-                from tangelo.algorithms.classical.fci_solver import FCISolver
-                try:
-                    fsw = FCISolver(mol)
-                    efci = fsw.simulate()
-                    fs = getattr(fsw, "solver", fsw)
-                    na, nb = mol.n_active_ab_electrons
-                    if (fs.n_alpha, fs.n_beta) != (na, nb) or fs.norb != mol.n_active_mos or fs.cas != (mol.frozen_mos is not None):
-                        ck.violation("C04/pyscf/fci-arguments", "%s: FCISolver (n_alpha,n_beta,norb,cas)=%s, molecule says %s" % (
-                            pc["name"], (fs.n_alpha, fs.n_beta, fs.norb, fs.cas), (na, nb, mol.n_active_mos, mol.frozen_mos is not None)),
-                            {"kind": "pyscf", "case": json.loads(json.dumps(pc))}, found_input=True)
-                    if abs(efci - e0) > 1e-6:
-                        ck.violation("C04/pyscf/fci-energy/%s" % ("rohf" if pc["spin"] else "rhf"),
-                                     "%s: lowest sector eigenvalue %.9f, FCISolver %.9f" % (pc["name"], e0, efci),
-                                     {"kind": "pyscf", "case": json.loads(json.dumps(pc))}, found_input=True)
-                except Exception as ex:
-                    ck.notes.setdefault("pyscf_fci_errors", []).append("%s: %r" % (pc["name"], ex))
-            # rotation among the active orbitals leaves the sector ground energy unchanged
+                ck.notes.setdefault("pyscf_projection_errors", []).append("%s: %r" % (pc["name"], ex))
+        # (2) the classical solver (restricted references only): simulate and get_rdm
+        if not pc["uhf"]:
+            from tangelo.algorithms.classical.fci_solver import FCISolver
             try:
-                rot_ok = rotation_invariance(ck, mol, e0)
-                if rot_ok is not None:
-                    ck.violation("C04/pyscf/rotation-invariance/%s" % ("uhf" if pc["uhf"] else "restricted"),
-                                 "%s: %s" % (pc["name"], rot_ok), {"kind": "pyscf", "case": json.loads(json.dumps(pc))}, found_input=True)
+                fsw = FCISolver(mol)
+                efci = fsw.simulate()
+                fs = getattr(fsw, "solver", fsw)
+                if (fs.n_alpha, fs.n_beta) != (na, nb) or fs.norb != mol.n_active_mos or fs.cas != (mol.frozen_mos is not None):
+                    ck.violation("C04/pyscf/fci-arguments", "%s: FCISolver (n_alpha,n_beta,norb,cas)=%s, expected %s" % (
+                        pc["name"], (fs.n_alpha, fs.n_beta, fs.norb, fs.cas), (na, nb, mol.n_active_mos, mol.frozen_mos is not None)),
+                        {"kind": "pyscf", "case": pcj, "what": "sector"}, found_input=True)
+                if abs(efci - e0) > 1e-6:
+                    ck.violation("C04/pyscf/fci-energy/%s/%s" % (ref, "frozen" if mol.frozen_mos is not None else "no-frozen"),
+                                 "%s: lowest eigenvalue of the qubit Hamiltonian in sector (n_alpha,n_beta)=(%d,%d) is %.9f, FCISolver.simulate() %.9f"
+                                 % (pc["name"], na, nb, e0, efci), {"kind": "pyscf", "case": pcj, "what": "sector"}, found_input=True)
+                d1, d2 = fsw.get_rdm()
+                er = mol.energy_from_rdms(np.array(d1), np.array(d2))
+                if abs(er - e0) > 1e-6 or abs(np.trace(np.array(d1)) - (na + nb)) > 1e-6:
+                    ck.violation("C04/pyscf/fci-rdm/%s/%s" % (ref, "frozen" if mol.frozen_mos is not None else "no-frozen"),
+                                 "%s: FCISolver.get_rdm(): energy from RDMs %.9f (sector eigenvalue %.9f), trace %.6f (active electrons %d)"
+                                 % (pc["name"], er, e0, np.trace(np.array(d1)), na + nb), {"kind": "pyscf", "case": pcj, "what": "sector"}, found_input=True)
             except Exception as ex:
-                ck.notes.setdefault("pyscf_rotation_errors", []).append("%s: %r" % (pc["name"], ex))
+                ck.notes.setdefault("pyscf_fci_errors", []).append("%s: %r" % (pc["name"], ex))
+        if ck.tier != "thorough":
+            continue
+        # rotation among the active orbitals leaves the sector ground energy unchanged
+        try:
+            rot_ok = rotation_invariance(ck, mol, e0)
+            if rot_ok is not None:
+                ck.violation("C04/pyscf/rotation-invariance/%s" % ("uhf" if pc["uhf"] else "restricted"),
+                             "%s: %s" % (pc["name"], rot_ok), {"kind": "pyscf", "case": pcj}, found_input=True)
+        except Exception as ex:
+            ck.notes.setdefault("pyscf_rotation_errors", []).append("%s: %r" % (pc["name"], ex))
 
 
 def rotation_invariance(ck, mol, e0):
@@ -717,6 +841,22 @@ def replay(data):
         mol = SecondQuantizedMolecule([(a, tuple(x)) for a, x in pc["xyz"]], pc["q"], pc["spin"], basis="sto-3g",
                                       frozen_orbitals=pc["frozen"], uhf=pc["uhf"])
         print("mf_energy", mol.mf_energy)
+        if r.get("what") == "sector":
+            e0 = sector_ground_energy(mol)
+            (na, nb), _ = target_sector(mol)
+            print("sector", (na, nb), "lowest eigenvalue of the active-space Hamiltonian", e0)
+            bad = 0
+            if mol.frozen_mos is not None and mol.n_sos <= 10:
+                ep = projected_full_space_energy(mol)
+                print("full-space Hamiltonian restricted to the frozen pattern", ep)
+                bad |= abs(ep - e0) > 1e-7
+            if not pc["uhf"]:
+                from tangelo.algorithms.classical.fci_solver import FCISolver
+                f = FCISolver(mol)
+                ef = f.simulate()
+                print("FCISolver.simulate()", ef)
+                bad |= abs(ef - e0) > 1e-6
+            return 1 if bad else 0
         if "mapping" in r:
             e = reference_expectation(mol, r["mapping"], r["up_then_down"])
             print("<ref|H|ref>", e)
